@@ -76,6 +76,14 @@ func (e *Engine) intrinsicFor(fn *ssa.Function) intrinsic {
 			h = hh
 		}
 	}
+	if h == nil && strings.HasPrefix(name, "(*github.com/sirupsen/logrus.Entry).") {
+		// logging: With* return the receiver, everything else is a no-op (formatting is never the subject)
+		if strings.HasPrefix(fn.Name(), "With") {
+			h = func(p *Path, fn *ssa.Function, a []Value, pos token.Pos, caller *ssa.Function) []Value { return []Value{a[0]} }
+		} else if fn.Signature.Results().Len() == 0 {
+			h = func(p *Path, fn *ssa.Function, a []Value, pos token.Pos, caller *ssa.Function) []Value { return nil }
+		}
+	}
 	if h == nil && strings.HasPrefix(fn.Name(), "verif") && fn.Pkg != nil {
 		if hh, ok := e.intrinsics["verif:"+fn.Name()]; ok {
 			h = hh
